@@ -185,3 +185,5 @@ def run(ctx):
     scale.run(ctx, ctx.crate("rel"), list(range(30)))
     from rules import cancellation
     cancellation.check(ctx, ctx.crate("rel"), ['nested::bilinear_interpolation', 'nested::Layer::bilinear_interpolation'], floor=32)
+    from rules import controls as _controls
+    _controls.feval_controls(ctx)
